@@ -183,3 +183,24 @@ def test_F19_peaks_table_for_a_scan_without_overlaps(tmp_path):
         merged = pk.pk2dmerge(DS.omega, DS.dty)
     assert sorted(merged["Number_of_pixels"].tolist()) == [1.0] * 5
     assert sorted(merged["sum_intensity"].tolist()) == [10.0, 20.0, 30.0, 40.0, 50.0]
+
+
+def test_F20_column_assigned_from_another_column_is_its_own_data():
+    from ImageD11 import columnfile as C
+    for how in ("attr", "addcolumn", "setcolumn", "addnew"):
+        cf = C.colfile_from_dict({"a": np.array([3.0, 1, 2, 0]), "b": np.array([10.0, 11, 12, 13]), "i": np.arange(4.0)})
+        if how == "attr":
+            cf.a = cf.b
+        elif how == "addcolumn":
+            cf.addcolumn(cf.b, "a")
+        elif how == "setcolumn":
+            cf.setcolumn(cf.b, "a")
+        else:
+            cf.addcolumn(cf.b, "c")
+        cf.reorder(np.array([1, 2, 3, 0]))
+        assert cf.i.tolist() == [1, 2, 3, 0]
+        assert cf.b.tolist() == [11, 12, 13, 10], how
+        other = cf.c if how == "addnew" else cf.a
+        assert other.tolist() == [11, 12, 13, 10], how
+        cf.b[0] = -1
+        assert other[0] == 11
